@@ -169,6 +169,7 @@ static void release_all(void) {
   for (j = 1; j <= MAXI; j++) if (its[j]) { ldb_iter_destroy(its[j]); its[j] = NULL; EV("iter_free", "\"id\":%d", j); }
   for (j = 1; j <= MAXS; j++) if (snaps[j]) { ldb_release(db, snaps[j]); snaps[j] = NULL; EV("rel", "\"id\":%d", j); }
 }
+static void *race_compact_thread(void *arg) { ldb_test_compact_range(db, *(int *)arg, NULL, NULL); return NULL; }
 static int g_raw_reopen = 0;
 static int do_reopen(void) {
   int rc;
@@ -279,6 +280,26 @@ static int run_script(const char *path) {
       scan_one(0, 0);
     } else if (!strcmp(op, "scan")) { for (s = 0; s <= MAXS; s++) { if (s && !snaps[s]) continue; scan_one(s, 0); scan_one(s, 1); } }
     else if (!strcmp(op, "quiesce")) quiesce();
+    else if (!strcmp(op, "racecompact")) {
+      /* a manual compaction of level a is parked at its b-th input entry (an output file is open by then); meanwhile the memtable
+         is filled and switched, so that the compaction thread flushes it in the middle of the compaction and runs the
+         obsolete-file pass while its own output is unfinished */
+      pthread_t th; static int lvl; int k = 15, id = nextid++, rc; size_t len = O.o.write_buffer_size + 4096; char *v; ldb_slice_t key, val;
+      lvl = a;
+      lcdb_verif_hold(22, b > 1 ? b : 2);
+      pthread_create(&th, NULL, race_compact_thread, &lvl);
+      usleep(60000);
+      v = d_mkval(id, len); key = d_key(k); val = ldb_slice(v, len);
+      EV("call_write", "\"ops\":[[%d,%d]]", k, id);
+      rc = ldb_put(db, &key, &val, NULL); EV("put", "\"k\":%d,\"v\":%d,\"len\":%lu,\"sync\":0,\"rc\":%d", k, id, (unsigned long)len, rc); free(v);
+      { int id2 = nextid++; char *v2 = d_mkval(id2, 20); ldb_slice_t key2 = d_key(14), val2 = ldb_slice(v2, 20);
+        EV("call_write", "\"ops\":[[%d,%d]]", 14, id2);
+        rc = ldb_put(db, &key2, &val2, NULL); EV("put", "\"k\":%d,\"v\":%d,\"len\":%lu,\"sync\":0,\"rc\":%d", 14, id2, 20UL, rc); free(v2); }   /* this put switches the memtable */
+      lcdb_verif_hold(22, 0);
+      pthread_join(th, NULL);
+      EV("compact", "\"level\":%d,\"lo\":-1,\"hi\":-1", a);
+      quiesce();
+    }
     else if (!strcmp(op, "wbuf")) { O.o.write_buffer_size = (size_t)a; EV("note", "\"wbuf\":%d", a); }   /* takes effect at the next open */
   }
   fclose(f);
